@@ -232,6 +232,7 @@ func randPolicy(r *rand.Rand) cmapw.Policy {
 		FullHeader: r.Intn(3) > 0,
 		Grouped:    r.Intn(2) == 0,
 	}
+	p.SectionOrder = []string{"", "", "reverse", "shuffle"}[r.Intn(4)]
 	return p
 }
 
